@@ -8,12 +8,16 @@ EXPLANATION = (
     "(R1) explicit-panic audit of everything reachable from parse_main_str / parse_main_file / lint: "
     "each explicit panic site (panic!/unreachable!/unimplemented!/todo!/assert!, unwrap/expect, "
     "Index on Vec/HashMap) is keyed by function, kind and ordinal and must be locally discharged, "
-    "audited, a known finding, or in the frozen baseline - a new reachable site is a violation; (R3) "
+    "audited, a known finding, or in the frozen baseline - a new reachable site is a violation; the "
+    "same audit covers the implicit sites rustc inserts for slice/array indexing (bounds check) and "
+    "integer / and % (zero check): each must be proved from the comparisons that dominate it (zone "
+    "domain over the dominating switch edges and `for` range items, with a redefinition check) or "
+    "be audited / in the baseline, so a weakened guard (i <= len - 1 before a[i + 1]) is reported; (R3) "
     "the position attached to a parse error is read from the same reader the parser ran on; "
     "StringView::position indexes its table only behind the !is_eof() guard and the end-of-text "
     "position behind a non-empty guard; the program parser ends in demand_eof.")
 NOT_DECIDED = [
-    "absence of implicit panics (arithmetic overflow, slice bounds asserts) and of stack overflow on deep nesting",
+    "absence of arithmetic-overflow panics (debug profile only) and of stack overflow on deep nesting",
     "C07.R2 termination of repetition (nullability of many/delimited element parsers): not built in this revision",
     "that the reported row/column lies inside the text (value-level)",
 ]
